@@ -510,11 +510,9 @@ func r03_4(c *Ctx, rule string) {
 	base := c.name(fn)
 	x := c.explorer(fn)
 	var look *ssa.Lookup
-	eng.Instrs(fn, func(in ssa.Instruction) {
-		if l, ok := in.(*ssa.Lookup); ok && l.CommaOk && isFieldLoad(l.X, "fsutil.Hardlinks.seenFiles") {
-			look = l
-		}
-	})
+	for _, l := range c.lookupsOfField(fn, "fsutil.Hardlinks.seenFiles") {
+		look = l
+	}
 	if look == nil {
 		c.R.Fail(rule, base+"/link-source-lookup", c.P.Pos(fn.Pos()), "no lookup of the link source in Hardlinks.seenFiles: hard links to unknown paths are accepted")
 		return
